@@ -26,13 +26,63 @@ Record WInv (w : world) : Prop := {
   wi_svc : Forall wf_cidr (svc_list (w_svc w))
 }.
 
+(* the --cluster-cidr flags: well-formed ranges, IPv6 ones outside the IPv4-mapped zone (the domain of C13) *)
+Definition flag_ok (c : cidr) : Prop := wf_cidr c /\ match cf c with V4 => True | V6 => overlapb c v4zone = false end.
+Definition wf_dp (dp : list (cidr * Z)) : Prop := Forall (fun cm => flag_ok (fst cm)) dp.
+
 Definition wf_op (o : op) : Prop :=
   match o with
   | UCreateNode _ _ cs => Forall wf_pcidr cs
   | UCreateCC obj => good_obj obj
-  | Construct s1 s2 _ => (forall s, s1 = Some s -> wf_cidr s) /\ (forall s, s2 = Some s -> wf_cidr s)
+  | Construct s1 s2 _ dp => (forall s, s1 = Some s -> wf_cidr s) /\ (forall s, s2 = Some s -> wf_cidr s) /\ wf_dp dp
   | _ => True
   end.
+
+(* the default ClusterCIDR built from well-formed flags is an object the controller may be given: its perNodeHostBits is
+   at least 4, its ranges are the flags' ranges *)
+Definition da_ok (a : dflt_acc) : Prop :=
+  (forall c, da_v4 a = FOk c -> flag_ok c) /\ (forall c, da_v6 a = FOk c -> flag_ok c) /\ (4 <= da_hb a)%Z.
+
+Lemma dflt_one_ok dual a cm : da_ok a -> flag_ok (fst cm) -> da_ok (dflt_one dual a cm).
+Proof.
+  intros (H4 & H6 & Hh) Hc. destruct cm as [c mask]. cbn [fst] in Hc. unfold da_ok, dflt_one, min_hb. destruct (cf c); cbn [da_v4 da_v6 da_hb].
+  - split; [intros c' E; inversion E; subst; exact Hc|]. split; [exact H6|].
+    destruct (negb dual && (4 <? 32 - mask)%Z)%bool eqn:E; [|exact Hh]. apply andb_prop in E. destruct E as [_ E]. apply Z.ltb_lt in E. lia.
+  - split; [exact H4|]. split; [intros c' E; inversion E; subst; exact Hc|].
+    destruct (negb dual && (4 <? 128 - mask)%Z)%bool eqn:E; [|exact Hh]. apply andb_prop in E. destruct E as [_ E]. apply Z.ltb_lt in E. lia.
+Qed.
+
+Lemma dflt_fold_ok dual dp : forall a, da_ok a -> wf_dp dp -> da_ok (fold_left (dflt_one dual) dp a).
+Proof.
+  induction dp as [|cm dp IH]; intros a Ha Hw; cbn [fold_left]; [exact Ha|]. inversion Hw; subst.
+  apply IH; [apply dflt_one_ok; assumption|assumption].
+Qed.
+
+Lemma default_good dp : wf_dp dp -> good_obj (default_cc_obj dp).
+Proof.
+  intros Hw. unfold default_cc_obj.
+  set (a := fold_left (dflt_one (Nat.eqb (length dp) 2)) dp (mkDA FEmpty FEmpty min_hb min_int32 min_int32)).
+  assert (Ha : da_ok a).
+  { apply dflt_fold_ok; [|exact Hw]. unfold da_ok, min_hb. cbn [da_v4 da_v6 da_hb]. split; [intros c E; discriminate E|]. split; [intros c E; discriminate E|lia]. }
+  destruct Ha as (H4 & H6 & Hh).
+  match goal with |- good_obj (mkCCObj _ _ _ ?hb _ _ _ _ _ _) => assert (Hhb : (4 <= hb)%Z) end.
+  { unfold min_hb. destruct (Nat.eqb (length dp) 2); [|exact Hh].
+    destruct ((4 <=? da_h4 a)%Z && (da_h4 a <=? da_h6 a)%Z)%bool eqn:E1.
+    - apply andb_prop in E1. destruct E1 as [E1 _]. apply Z.leb_le in E1. exact E1.
+    - destruct ((4 <=? da_h6 a)%Z && (da_h6 a <=? 32)%Z)%bool eqn:E2; [|exact Hh].
+      apply andb_prop in E2. destruct E2 as [E2 _]. apply Z.leb_le in E2. exact E2. }
+  unfold good_obj, good_field. cbn [o_v4 o_v6 o_hb]. split.
+  - destruct (da_v4 a) as [| |c] eqn:E; try exact Logic.I. destruct (H4 c eq_refl) as [Hwf Hz].
+    unfold good_range. split; [exact Hwf|]. split; [intros (_ & _ & E0); rewrite E0 in Hhb; lia|exact Hz].
+  - destruct (da_v6 a) as [| |c] eqn:E; try exact Logic.I. destruct (H6 c eq_refl) as [Hwf Hz].
+    unfold good_range. split; [exact Hwf|]. split; [intros (_ & _ & E0); rewrite E0 in Hhb; lia|exact Hz].
+Qed.
+
+Lemma with_default_good dp ccs : wf_dp dp -> Forall good_obj ccs -> Forall good_obj (with_default dp ccs).
+Proof.
+  intros Hw H. unfold with_default. destruct dp as [|cm dp']; [exact H|].
+  destruct (existsb _ ccs); [exact H|]. apply Forall_app. split; [exact H|]. constructor; [apply default_good; exact Hw|constructor].
+Qed.
 
 Lemma svc_list_wf s1 s2 : (forall s, s1 = Some s -> wf_cidr s) -> (forall s, s2 = Some s -> wf_cidr s) -> Forall wf_cidr (svc_list (s1, s2)).
 Proof.
@@ -125,16 +175,79 @@ Proof.
   all: apply push_cev_wf; assumption.
 Qed.
 
-Lemma apply_effects_winv fx : forall w, WInv w ->
-  (forall n cs o, In (FxPatch n cs o) fx -> Forall wf_cidr cs) -> WInv (apply_effects w fx).
+Lemma apply_create_cc_winv w o' out : WInv w -> good_obj o' -> WInv (apply_create_cc w o' out).
 Proof.
-  induction fx as [|e fx IH]; intros w I H; [exact I|].
+  intros I Hg. unfold apply_create_cc. destruct out; try exact I; (destruct (find_cc (o_name o') (w_ccs w)); [exact I|]).
+  all: assert (Hs : good_obj (with_rv o' (w_rv w + 1))) by (eapply good_obj_fields; [..|exact Hg]; reflexivity).
+  all: wsplit I; try assumption.
+  all: try (apply Forall_snoc; assumption).
+  all: apply push_cev_wf; assumption.
+Qed.
+
+(* every object an effect list creates is one the controller may be given *)
+Definition fx_good (fx : list effect) : Prop := forall o' out, In (FxCreateCC o' out) fx -> good_obj o'.
+Lemma fx_good_tail e fx : fx_good (e :: fx) -> fx_good fx.
+Proof. intros H o' out Hin. eapply H. right. exact Hin. Qed.
+Lemma fx_good_head o' out fx : fx_good (FxCreateCC o' out :: fx) -> good_obj o'.
+Proof. intros H. eapply H. left. reflexivity. Qed.
+
+Lemma apply_effects_winv fx : forall w, WInv w ->
+  (forall n cs o, In (FxPatch n cs o) fx -> Forall wf_cidr cs) ->
+  fx_good fx -> WInv (apply_effects w fx).
+Proof.
+  induction fx as [|e fx IH]; intros w I H Hc; [exact I|].
   destruct e; cbn [apply_effects].
-  - apply IH; [apply apply_patch_winv; [exact I|eapply H; left; reflexivity]|intros; eapply H; right; eassumption].
-  - apply IH; [exact I|intros; eapply H; right; eassumption].
-  - apply IH; [exact I|intros; eapply H; right; eassumption].
-  - apply IH; [apply apply_update_cc_winv; exact I|intros; eapply H; right; eassumption].
-  - apply IH; [exact I|intros; eapply H; right; eassumption].
+  - apply IH; [apply apply_patch_winv; [exact I|eapply H; left; reflexivity]|intros; eapply H; right; eassumption|eapply fx_good_tail; exact Hc].
+  - apply IH; [exact I|intros; eapply H; right; eassumption|eapply fx_good_tail; exact Hc].
+  - apply IH; [exact I|intros; eapply H; right; eassumption|eapply fx_good_tail; exact Hc].
+  - apply IH; [apply apply_update_cc_winv; exact I|intros; eapply H; right; eassumption|eapply fx_good_tail; exact Hc].
+  - apply IH; [apply apply_create_cc_winv; [exact I|eapply fx_good_head; exact Hc]|intros; eapply H; right; eassumption|eapply fx_good_tail; exact Hc].
+Qed.
+
+(* what a ClusterCIDR work item or the bootstrap creates is the object it was given, but for the controller's finalizer *)
+Lemma sync_cc_create_same m key o out m' r fx :
+  sync_cc m key (Some o) out = (m', r, fx) -> forall o' uo, In (FxCreateCC o' uo) fx -> same_but_own_finalizer o o'.
+Proof.
+  unfold sync_cc. intros H o' uo He. destruct (o_deleting o).
+  - pose proof (delete_writes_only_own_finalizer _ _ _ _ _ _ H _ He) as Hs. destruct Hs.
+  - unfold reconcile_create in H. destruct (need_finalizer o || negb (is_mapped_obj m o))%bool.
+    + exact (create_writes_only_own_finalizer _ _ _ _ _ _ _ _ H _ He).
+    + inversion H; subst. destruct He.
+Qed.
+
+Lemma bootstrap_create_same os : forall m outs m' fx, bootstrap_ccs m os outs = (m', fx) ->
+  forall o' uo, In (FxCreateCC o' uo) fx -> exists o, In o os /\ same_but_own_finalizer o o'.
+Proof.
+  induction os as [|o os IH]; intros m outs m' fx H o' uo He; cbn in H; [inversion H; subst; destruct He|].
+  destruct (reconcile_bootstrap m o (match outs with x :: _ => x | [] => UOk end)) as [[m1 r1] fx1] eqn:E1.
+  destruct (bootstrap_ccs m1 os (tl outs)) as [m2 fx2] eqn:E2. inversion H; subst.
+  apply in_app_or in He. destruct He as [He|He].
+  - exists o. split; [left; reflexivity|]. exact (create_writes_only_own_finalizer _ _ _ _ _ _ _ _ E1 _ He).
+  - destruct (IH _ _ _ _ E2 _ _ He) as (x & Hx & Hs). exists x. split; [right; exact Hx|exact Hs].
+Qed.
+
+Lemma same_good o o' : same_but_own_finalizer o o' -> good_obj o -> good_obj o'.
+Proof. intros (_ & A & B & C & _) H. eapply good_obj_fields; eassumption. Qed.
+
+Lemma sync_node_fx_good po lab svcs canp apisame held m cached reread outs m' r fx :
+  sync_node po lab svcs canp apisame held m cached reread outs = (m', r, fx) -> fx_good fx.
+Proof. intros Es o' uo Hin. pose proof (sync_node_no_cc_write _ _ _ _ _ _ _ _ _ _ _ _ _ Es _ Hin) as Hp. discriminate Hp. Qed.
+
+Lemma sync_cc_fx_good m key cached out m' r fx :
+  (forall o, cached = Some o -> good_obj o) -> sync_cc m key cached out = (m', r, fx) -> fx_good fx.
+Proof.
+  intros Hc Es o' uo Hin. destruct cached as [o|]; [|cbn in Es; inversion Es; subst; destruct Hin].
+  eapply same_good; [eapply sync_cc_create_same; eassumption|apply Hc; reflexivity].
+Qed.
+
+Lemma construct_fx_good po lab ccs outs s1 s2 ns m fx pan :
+  Forall good_obj ccs -> construct po lab ccs outs s1 s2 ns = (m, fx, pan) -> fx_good fx.
+Proof.
+  intros Hg Ec o' uo Hin. unfold construct in Ec.
+  destruct (bootstrap_ccs [] ccs outs) as [m1 fx1] eqn:Eb.
+  match type of Ec with context [occupy_nodes po lab ?m3 ?ns] => destruct (occupy_nodes po lab m3 ns) as [m4 p4] end.
+  inversion Ec; subst. destruct (bootstrap_create_same _ _ _ _ _ Eb _ _ Hin) as (o & Ho & Hs).
+  eapply same_good; [exact Hs|]. rewrite Forall_forall in Hg. apply Hg. exact Ho.
 Qed.
 
 Lemma crashed_winv w : WInv w -> WInv (crashed w).
@@ -185,6 +298,7 @@ Section WorldInv.
     apply apply_effects_winv.
     - apply after_call_winv; [exact I|]. eapply sync_node_inv; [exact M|exact (wi_svc w I)|exact Hc|exact Es].
     - intros n cs o Hin. eapply sync_node_patches_wf; eassumption.
+    - eapply sync_node_fx_good; exact Es.
   Qed.
 
   Lemma set_delseen_winv w d : WInv w -> WInv (set_delseen w d).
@@ -202,6 +316,7 @@ Section WorldInv.
       match goal with |- context [if ?b then _ else _] => destruct b end;
         [apply set_delseen_winv|]; apply after_call_winv; assumption.
     - intros n cs o Hin. pose proof (sync_cc_no_patch _ _ _ _ _ _ _ Es _ Hin) as Hp. discriminate Hp.
+    - eapply sync_cc_fx_good; eassumption.
   Qed.
 
   (* informer notifications *)
@@ -378,19 +493,21 @@ Section WorldInv.
     - (* Crash *) cbn [fst]. apply crashed_winv. exact I.
     - (* Construct *)
       destruct (w_ctl w) as [m0|] eqn:Em; [exact I|].
-      destruct (construct po lab (w_ccs w) outs svc1 svc2 (map node_view (w_nodes w))) as [[m fx] pan] eqn:Ec.
-      cbn [fst]. destruct Ho as [H1 H2].
+      destruct (construct po lab (with_default dp (w_ccs w)) outs svc1 svc2 (map node_view (w_nodes w))) as [[m fx] pan] eqn:Ec.
+      cbn [fst]. destruct Ho as (H1 & H2 & Hdp).
+      assert (Hgood : Forall good_obj (with_default dp (w_ccs w))) by (apply with_default_good; [exact Hdp|exact (wi_ccs w I)]).
       assert (M : MapInv m).
-      { eapply construct_inv; [exact (wi_ccs w I)| |exact H1|exact H2|exact Ec].
+      { eapply construct_inv; [exact Hgood| |exact H1|exact H2|exact Ec].
         rewrite Forall_forall. intros n Hn. apply in_map_iff in Hn. destruct Hn as (a & <- & Ha). apply wf_node_view. eapply in_anodes_wf; eassumption. }
       apply apply_effects_winv.
       + wsplit I; [assumption|assumption|constructor|constructor|constructor|constructor|intros; contradiction|intros; contradiction| |].
         * intros m1 E. destruct pan; [discriminate|]. inversion E; subst. exact M.
         * unfold svc_list. cbn [fst snd]. apply Forall_app. split; [destruct svc1 as [s|]; [constructor; [apply H1; reflexivity|constructor]|constructor]|destruct svc2 as [s|]; [constructor; [apply H2; reflexivity|constructor]|constructor]].
       + intros n cs o Hin. unfold construct in Ec.
-        destruct (bootstrap_ccs [] (w_ccs w) outs) as [m1 fx1] eqn:Eb.
+        destruct (bootstrap_ccs [] (with_default dp (w_ccs w)) outs) as [m1 fx1] eqn:Eb.
         match type of Ec with context [occupy_nodes po lab ?m3 ?ns] => destruct (occupy_nodes po lab m3 ns) as [m4 p4] end.
         inversion Ec; subst. pose proof (bootstrap_no_patch _ _ _ _ _ Eb _ Hin) as Hp. discriminate Hp.
+      + eapply construct_fx_good; eassumption.
     - (* StartInformers *)
       destruct (w_ctl w) as [m|] eqn:Em; [|exact I]. destruct (w_synced w); [exact I|]. cbn [fst].
       pose proof I as I0. wsplit I; [assumption|assumption|constructor|constructor| |assumption|assumption|assumption| |assumption].
@@ -460,7 +577,7 @@ Section WorldInv.
       pose proof (run_cc_sync_no_patch _ _ _ _ _ _ Er _ He2) as Hp. discriminate Hp.
     - destruct (w_ctl w) as [m|]; [inversion H; subst; destruct He|].
       unfold construct in H.
-      destruct (bootstrap_ccs [] (w_ccs w) outs) as [m1 fx] eqn:Eb.
+      destruct (bootstrap_ccs [] (with_default dp (w_ccs w)) outs) as [m1 fx] eqn:Eb.
       match type of H with context [occupy_nodes po lab ?m3 ?ns] => destruct (occupy_nodes po lab m3 ns) as [m4 pan] end.
       inversion H; subst. cbn [ob_fx] in He.
       pose proof (bootstrap_no_patch _ _ _ _ _ Eb _ He) as Hp. discriminate Hp.
